@@ -116,6 +116,16 @@ def check_roundtrip(case, ctx):
     require(s.tell() == len(want), "roundtrip/bytes_consumed", f"{s.tell()} of {len(want)}")
     require(must(e2.serialize, "roundtrip/reserialize") == want, "roundtrip/reserialize_differs")
     require(e2.stream().read() == payload, "roundtrip/stream")
+    # two messages back to back on one stream, as they arrive from a peer
+    first = p2p.envelope(net, b"verack", b"")
+    s2 = BytesIO(first + want + first)
+    a1 = must(NetworkEnvelope.parse, "roundtrip/parse_first_of_stream", s2, network=net)
+    a2 = must(NetworkEnvelope.parse, "roundtrip/parse_second_of_stream", s2, network=net)
+    a3 = must(NetworkEnvelope.parse, "roundtrip/parse_third_of_stream", s2, network=net)
+    require((a1.command, a1.payload, a3.command, a3.payload) == (b"verack", b"", b"verack", b"")
+            and a2.command == cmd and a2.payload == payload and s2.tell() == len(want) + 2 * len(first)
+            and a1.magic == a2.magic == a3.magic == p2p.MAGIC[net],
+            "roundtrip/messages_back_to_back", f"cmd={cmd!r} plen={len(payload)}")
     if net == "mainnet":  # documented default network
         e3 = must(NetworkEnvelope.parse, "roundtrip/parse_default", BytesIO(want))
         require(e3.payload == payload and e3.command == cmd, "roundtrip/parse_default_fields")
